@@ -218,10 +218,12 @@ template<typename T> struct DatumTraits< Jones<T> >
 template<typename T>
 Jones<T>& Jones<T>::operator *= (const Jones<T>& j)
 {
-  std::complex<T> temp (j00 * j.j00 + j01 * j.j10);
-  j01  = j00 * j.j01 + j01 * j.j11; j00=temp;
-  temp = j10 * j.j00 + j11 * j.j10;
-  j11  = j10 * j.j01 + j11 * j.j11; j10=temp;
+  // copy the right-hand elements first: j may be *this
+  const std::complex<T> b00 (j.j00), b01 (j.j01), b10 (j.j10), b11 (j.j11);
+  std::complex<T> temp (j00 * b00 + j01 * b10);
+  j01  = j00 * b01 + j01 * b11; j00=temp;
+  temp = j10 * b00 + j11 * b10;
+  j11  = j10 * b01 + j11 * b11; j10=temp;
   return *this; 
 }
 
